@@ -37,6 +37,18 @@ Lemma bootstrap_checks_ok : bootstrap_checks =
   [IfE "v2 == nil" [Ret] [IfE "v2.GetId() == 0" [Ret] []]; IfE "v3 == nil" [Ret] [IfE "len(v3.GetStartKey()) > 0 || len(v3.GetEndKey()) > 0" [Ret] [IfE "v3.GetId() == 0" [Ret] []]]; IfE "len(v4) != 1" [Ret] []; IfE "v5.GetStoreId() != v2.GetId()" [Ret] []; IfE "v5.GetId() == 0" [Ret] []; Ret].
 Proof. reflexivity. Qed.
 
+Lemma skel_Tso_ok : skel_Tso =
+  [ForE [Call "Recv"; IfE "v6 == io.EOF" [Ret] []; IfE "v6 != nil" [Ret] []; IfE "!v0.isLocalRequest(v7)" [IfE "v2 == nil || v4 != v7" [IfE "v6 != nil" [Ret] []; IfE "v6 != nil" [Ret] []] []; IfE "v6 != nil" [Ret] []; Call "Recv"; IfE "v6 != nil" [Ret] []; IfE "v6 != nil" [Ret] []] []; Call "IsClosed"; IfE "v0.IsClosed()" [Ret] []; IfE "v5.GetHeader().GetClusterId() != v0.clusterID" [Ret] []; Call "HandleTSORequest"; IfE "v6 != nil" [Ret] []; IfE "v6 != nil" [Ret] []]].
+Proof. reflexivity. Qed.
+
+Lemma skel_RegionHeartbeat_ok : skel_RegionHeartbeat =
+  [ForE [Call "Recv"; IfE "v10 == io.EOF" [Ret] []; IfE "v10 != nil" [Ret] []; IfE "!v0.isLocalRequest(v11)" [IfE "v4 == nil || v6 != v11" [IfE "v10 != nil" [Ret] []; IfE "v10 != nil" [Ret] []] []; IfE "v10 != nil" [Ret] []; SwitchE [[Ret]; []]] []; Call "GetRaftCluster"; IfE "v13 == nil" [Ret] []; Call "validateRequest"; IfE "v10 != nil" [Ret] []; IfE "v17 == nil" [Ret] []; Call "HandleRegionHeartbeat"]].
+Proof. reflexivity. Qed.
+
+Lemma skel_SyncerSync_ok : skel_SyncerSync =
+  [ForE [Call "Recv"; IfE "v3 == io.EOF" [Ret] []; IfE "v3 != nil" [Ret] []; IfE "v4 != v0.server.ClusterID()" [Ret] []; Call "syncHistoryRegion"; IfE "v3 != nil" [Ret] []; Call "bindStream"]].
+Proof. reflexivity. Qed.
+
 Lemma bootstrap_cmps_ok : bootstrap_cmps =
   ["clientv3.CreateRevision(v6) = 0"].
 Proof. reflexivity. Qed.
